@@ -32,6 +32,11 @@ def run(repo, run, tier):
     settings_reach_integrator(repo, run, ClassModel(repo, DS, "OdeSystem"), rule_id="C05.8")
     error_measure(repo, run)
     tolerance_scale_is_current(repo, run)
+    # the embedded estimate h*sum (b - b_hat) k is an estimate of THIS step's error only if every k_i is this step's stage (a first stage carried over from a cache
+    # keyed by time and state alone belongs to other constants / another right-hand side, and the estimators of the high-order pairs give stage 0 weight zero)
+    from .c02 import compute_step_part
+    r11 = run.rule("C05.11", "the generic stage loop evaluates every stage of the table in this call (re-judged: the error estimate is built from these stages)", floor=4)
+    compute_step_part(repo, run, r11, rule_id="C05.11")
 
 
 
@@ -69,7 +74,7 @@ def typestate(repo, run):
     return m
 
 
-def retry_step(repo, run, rule_id="C05.2"):
+def retry_step(repo, run, rule_id="C05.2", strict=False):
     rid = run.rule(rule_id, "the step passed to step() on a retry is the controller's proposal bounded in MAGNITUDE by the requested step "
                             "(sign(h) * min(|proposal|, |h|) or the proposal itself), never a signed min/max", floor=1)
     call = repo.get(ITY, extract.RK + ".__call__")
@@ -87,9 +92,18 @@ def retry_step(repo, run, rule_id="C05.2"):
             bad_min = [x for x in ast.walk(arg) if isinstance(x, ast.Call) and fname(x) in ("minimum", "min", "fmin") and any(
                 ke.kind(a) == "D" for a in x.args)]
             ok = k == "D" and m.ret_var in names and not has_max and not bad_min
+            strict_fail = False
+            if ok and strict:
+                # 'no recorded step is longer than the requested one / overshoots the target': EVERY retry is bounded by the requested step at the call -- the proposal
+                # alone is not (after a failed stage solve it is 0.8 x the controller's proposal, which may be a proposal to GROW); a clamp computed once before the loop
+                # does not cover the proposals made inside it
+                mins = [x for x in ast.walk(arg) if isinstance(x, ast.Call) and fname(x) in ("minimum", "min", "fmin")]
+                ok = any(any(isinstance(n, ast.Name) and n.id in m.input_alias for n in ast.walk(x)) and any(
+                    isinstance(n, ast.Name) and n.id == m.ret_var for n in ast.walk(x)) for x in mins)
+                strict_fail = not ok
             run.judged(rid, "retry step: %s  [kind %s]" % (src(arg), k), ok=ok)
             if not ok:
-                why = "does not contain the controller's proposal `%s`" % m.ret_var if m.ret_var not in names else (
+                why = "is the proposal as it stands, not clamped to the requested step at the call (sign(h) * min(|proposal|, |h|)): after a failed stage solve the proposal is 0.8 x the controller's, which may exceed the requested step, so a retried step can be longer than the one asked for" if strict_fail else "does not contain the controller's proposal `%s`" % m.ret_var if m.ret_var not in names else (
                     "takes a maximum" if has_max else ("takes the minimum of signed steps (for backward integration that is the larger step)" if bad_min
                                                        else "is not a signed duration (kind %s)" % (k,)))
                 run.report(rule_id, ITY, arg, "the step used for a retry %s: a rejected step is not retried with a strictly smaller magnitude in both "
